@@ -147,7 +147,7 @@ func (g *Gen) data() []byte {
 }
 
 func chunks(r *rand.Rand, n int) []int {
-	var out []int
+	out := []int{} // non-nil: for n == 0 this often means no Write call at all
 	rest := n
 	for rest > 0 {
 		var c int
